@@ -24,6 +24,8 @@ def aggregate(results):
     agg['evaluations'] += r['evaluations']
     if i in pick and r['samples']:
       agg['samples'].append(r['samples'][0])
+    for v in r['violations']:
+      v['_history'] = r.get('history', [])
     agg['violations'] += r['violations']
     for k, v in r['viol_count'].items():
       agg['viol_count'][k] = agg['viol_count'].get(k, 0) + v
@@ -64,8 +66,8 @@ def main(argv=None):
   if args.replay:
     with open(args.replay) as f:
       payload = json.load(f)
-    res = core.run_units(modname, [payload['unit']], workers=1, devices=devices, x64=x64,
-                         only=payload['key'], progress=False)[0]
+    res = core.run_units(modname, list(payload.get('history_units', [])) + [payload['unit']], workers=1, devices=devices, x64=x64,
+                         only=payload['key'], progress=False, fresh=True)[-1]
     if res['error']:
       print(res['error'])
     hits = [v for v in res['violations'] if v['site'] == payload['site'] and v['key'] == payload['key']]
@@ -113,17 +115,26 @@ def main(argv=None):
     print(f'KNOWN-FINDING: property={pid} {fid}: {f["what"]}')
   confirmed = 0
   for v in new[:5]:
+    hist_units = None
     if not v['site'].startswith('exception'):
-      # determinism: the recorded case must reproduce bit for bit before it is reported
-      res = core.run_units(modname, [v['unit']], workers=2, devices=devices, x64=x64, only=v['key'], progress=False)
-      res = res[0]
-      hits = [w for w in res['violations'] if w['site'] == v['site'] and w['key'] == v['key']]
-      if not any(core.jsonable(w['detail']) == v['detail'] for w in hits):
+      # determinism: the recorded case must reproduce bit for bit in a FRESH process before it is reported; if it
+      # only fails after the units that the finding worker had executed before it (hidden state in the library, e.g.
+      # a cache mutated in place), the same history is replayed in a fresh process and becomes part of the case
+      def reproduce(prefix):
+        res = core.run_units(modname, prefix + [v['unit']], workers=1, devices=devices, x64=x64, only=v['key'], progress=False, fresh=True)[-1]
+        hits = [w for w in res['violations'] if w['site'] == v['site'] and w['key'] == v['key']]
+        return any(core.jsonable(w['detail']) == v['detail'] for w in hits), hits
+      ok, hits = reproduce([])
+      if not ok and v.get('_history'):
+        hist_units = [units[i] for i in v['_history']]
+        ok, hits = reproduce(hist_units)
+      if not ok:
         print(f'HARNESS-ERROR property={pid}: violation at {v["site"]} key={v["key"]} did not reproduce identically '
               f'(first={v["detail"]} second={[w["detail"] for w in hits[:3]]})')
         exit_code = 2
         continue
-    path = core.write_replay(pid, v, args.tier, seed)
+    v.pop('_history', None)
+    path = core.write_replay(pid, v, args.tier, seed, hist_units)
     confirmed += 1
     print(f'VIOLATION property={pid} replay={path}')
     print(f'  site={v["site"]} key={json.dumps(v["key"])[:300]} detail={json.dumps(v["detail"])[:400]}')
